@@ -323,6 +323,9 @@ def run(tier):
     seen_nontrivial = set()
     for (toks, text, tag), res in zip(cases, impl):
         dist[tag] = dist.get(tag, 0) + 1
+        if 'again' in res and len(chk.oracle_fail) < 30:
+            chk.oracle_fail.append({'class': 'parse-result-depends-on-earlier-calls', 'source': text,
+                                    'first': {k: v for k, v in res.items() if k != 'again'}, 'second_pass': res['again']})
         if 'host' in res:
             chk.oracle_fail.append({'class': 'host-exception', 'source': text, 'got': res})
             continue
